@@ -10,6 +10,11 @@ def work(item, opts):
         case = universe.case(item)
     elif "opt" in item:
         case = item
+    elif "e" in item:
+        case = universe.case_ext(item["e"])
+        for k in ("mode", "workers"):
+            if k in item:
+                case[k] = item[k]
     else:
         case = universe.case(item["i"])
         for k in ("mode", "workers"):
@@ -32,6 +37,16 @@ def work(item, opts):
                 sp["minmax"] = "max" if sp["minmax"] == "min" else "min"
             priors.append(sp)
         case["prior"] = priors
+        if item.get("reconf"):
+            # the instance is first configured differently (other population size), used, then re-configured through
+            # set_config_parameters with the judged configuration
+            pc = dict(case["cfg"])
+            base = universe.base_configs()[case["opt"]]["population_size"]
+            for f in rng.sample([1, 1.5, 2, 3], 4):
+                pc["population_size"] = int(base * f)
+                if pc["population_size"] != case["cfg"]["population_size"] and universe.config_valid(case["opt"], pc):
+                    case["prior_cfg"] = pc
+                    break
     from . import hooks
     hooks.cov_start()
     utils = bool(opts.get("utils"))
